@@ -179,6 +179,14 @@ class C03(ConnProp):
                     out.append(([5, bs, rng.choice([0, 1, len(bs), len(bs) + 1, 10 ** 6])], {'kind': 'oneshot-maxlen'}))
                 else:
                     out.append(([5, bs], {'kind': 'oneshot'}))
+        # URI path extraction on absolute-form URIs with multi-byte characters around the authority
+        hosts = [b'h', 'é'.encode(), 'hé'.encode(), 'éh'.encode(), 'éé'.encode(), '日本'.encode(), 'a😀'.encode(), b'', b'a.b:80']
+        paths = [b'', b'/', b'/x', '/é'.encode(), b'/a/b', '/😀/'.encode()]
+        for hst in hosts:
+            for pth in paths:
+                for pre in (b'http://', b'http:/', b'HTTP://', b''):
+                    out.append(([1, 3, pre + hst + pth], {'kind': 'uri-nonascii'}))
+                    out.append(([8, b'srv', b'', [[0, pth or b'/', 1]], [b'GET ' + pre + hst + pth + b' HTTP/1.1\r\n\r\n']], {'kind': 'router-uri-nonascii'}))
         # the CRLFCRLF-at-offset cases of the one-shot parser's subtraction
         for s in [b'\r\n\r\n', b'GET / HTTP/1.1\r\n\r\n', b'GET / HTTP/1.1\r\n\r\r\n\r\n', b'GET / HTTP/1.1\r\nA\r\n\r\n',
                   b'GET / HTTP/1.1\r\n\r\n\r\n', b'GET / HTTP/1.1\r\nContent-Length: 3\r\n\r\nab', b'GET / HTTP/1.1\r\n: \r\n\r\n',
